@@ -391,16 +391,58 @@ func runC02(r *Run) {
 		}
 	}
 
-	// composed with the packet loop: a refused cookie → status 0x800759F8 and the end of the tunnel
-	gw := &gwCfg{token: true, ccheck: true}
+	// history: the decision is taken afresh every time. A cookie accepted a moment ago is refused
+	// as soon as the identity provider no longer honours its access token (revoked, erroring,
+	// hanging up), and accepted again when it does
+	checkNow := func(tok string) bool {
+		id := identity.NewUser()
+		t := &protocol.Tunnel{User: id}
+		ok, _ := security.CheckPAACookie(context.WithValue(ctxWithIdentity(id), protocol.CtxTunnel, t), tok)
+		return ok
+	}
+	for i, st := range []string{"revoked", "error", "hangup", "revoked"} {
+		at := fmt.Sprintf("at-history-%d", i)
+		idp.setToken(at, "ok:alice")
+		tok := mint(at, "host:3389", "192.0.2.1")
+		first := checkNow(tok)
+		second := checkNow(tok)
+		idp.setToken(at, st)
+		after := checkNow(tok)
+		afterAgain := checkNow(tok)
+		idp.setToken(at, "ok:alice")
+		restored := checkNow(tok)
+		r.Count("history:" + st + at)
+		r.Dist("class:history")
+		if !first || !second || after || afterAgain || !restored {
+			r.Violation("c02-accepts", "a cookie that is not a valid, unexpired, gateway-signed token with an honoured access token was accepted",
+				fmt.Sprintf("history with one cookie (access token %s): honoured → accepted=%v, again → %v; identity provider state becomes %q → accepted=%v, again → %v (must be refused); honoured again → accepted=%v\ncookie: %s\n", at, first, second, st, after, afterAgain, restored, tok))
+		}
+	}
+
+	// composed with the packet loop: a refused cookie → status 0x800759F8 and the end of the tunnel,
+	// whatever authentication methods the gateway offers and the handshake agreed on
 	bad := cases[len(ats)+5].tok
+	type loopCase struct {
+		sc  bool
+		ext int
+		ck  string
+	}
+	var lcs []loopCase
 	for _, ck := range []string{bad, "", signCompact(hdr(), claims("at-valid", nil), "HS256", otherKey), base} {
-		reads := [][]byte{mkPacket(tHandshake, bodyHandshake(1, 0, 0, 2)), mkPacket(tTunnel, bodyTunnelCreate(0, 1, append(utf16le(ck), 0, 0))), mkPacket(tAuth, bodyTunnelAuth(utf16le("PC")))}
+		lcs = append(lcs, loopCase{false, 2, ck})
+		for _, ext := range []int{1, 2, 3, 5, 6, 7} {
+			lcs = append(lcs, loopCase{true, ext, ck})
+		}
+	}
+	for _, lc := range lcs {
+		ck := lc.ck
+		gw := &gwCfg{token: true, ccheck: true, sc: lc.sc}
+		reads := [][]byte{mkPacket(tHandshake, bodyHandshake(1, 0, 0, lc.ext)), mkPacket(tTunnel, bodyTunnelCreate(0, 1, append(utf16le(ck), 0, 0))), mkPacket(tAuth, bodyTunnelAuth(utf16le("PC")))}
 		ir := runProcessWith(gw, reads, nil, func(t *protocol.Tunnel, g *protocol.Gateway) context.Context {
 			g.CheckPAACookie = security.CheckPAACookie
 			return context.WithValue(ctxWithIdentity(t.User), protocol.CtxTunnel, t)
 		})
-		r.Count("loop:" + ck)
+		r.Count(fmt.Sprintf("loop:%v:%d:%s", lc.sc, lc.ext, ck))
 		good := ck == base
 		if len(ir.elems) < 2 || len(ir.elems[1].writes) != 1 {
 			r.Violation("c02-loop", "tunnel create not answered", implModelCanon(ir, true))
@@ -411,7 +453,7 @@ func runC02(r *Run) {
 			r.Violation("c02-loop-fresh", "a valid cookie is not accepted by the packet loop", implModelCanon(ir, true))
 		}
 		if !good && (st != "f8590780" || len(ir.elems) != 2) {
-			r.Violation("c02-loop-status", "a refused cookie is not answered with cookie-access-denied (0x800759F8) and the end of the tunnel", fmt.Sprintf("cookie %q\ntrace %s\n", ck, implModelCanon(ir, true)))
+			r.Violation("c02-loop-status", "a refused cookie is not answered with cookie-access-denied (0x800759F8) and the end of the tunnel", fmt.Sprintf("smartcardauth=%v, handshake extended-auth field %d, cookie %q\ntrace %s\n", lc.sc, lc.ext, ck, implModelCanon(ir, true)))
 		}
 	}
 	r.extra["model_disagreements"] = drift
